@@ -137,13 +137,21 @@ SPEC = {
                         "rewritten by the merge is decided by the text-level oracle on the real library"],
     },
     "C15": {
-        "LEAN": {"modules": ["GfaProofs.Bridge.Multiply", "GfaProofs.C15"], "support": ["GfaModel.Multiply"],
-                 "theorems": ["Gfa.C15.auto_select_sound", "Gfa.C15.auto_select_equal_R", "Gfa.C15.distribute_covers",
+        "LEAN": {"modules": ["GfaProofs.Bridge.Multiply", "GfaProofs.C15", "GfaProofs.C15Graph"], "support": ["GfaModel.Multiply", "GfaModel.MultiplyGraph"],
+                 "theorems": ["Gfa.C15.multiply_lines", "Gfa.C15.multiply_frame", "Gfa.C15.multiply_segments", "Gfa.C15.multiply_nodup",
+                              "Gfa.C15.multiply_closed", "Gfa.C15.multiply_one", "Gfa.C15.multiply_zero", "Gfa.C15.mem_copiesFor",
+                              "Gfa.C15.divCounts_name", "Gfa.C15.divCounts_segRefs", "Gfa.C15.auto_select_sound", "Gfa.C15.auto_select_equal_R", "Gfa.C15.distribute_covers",
                               "Gfa.C15.distribute_subset", "Gfa.C15.distribute_exact", "Gfa.C15.distribute_window_size",
                               "Gfa.C15.copy_names_fresh_distinct", "Gfa.C15.counts_divided",
                               "Gfa.Bridge.Multiply.autoSelect_eq", "Gfa.Bridge.Multiply.autoSelect_samples",
                               "Gfa.Bridge.Multiply.window_samples", "Gfa.Bridge.Multiply.policies"]},
-        "ASSUMPTIONS": ["cloning of the segment and its edges, frame and count tags on the real graph are decided by the text-level oracle"],
+        "ASSUMPTIONS": ["multiply without link distribution is modelled on the graph (GfaModel/MultiplyGraph.lean) and compared with the library's complete "
+                        "observation after the call; proved: the shape of the result (old lines with divided counts + per copy name a copy of the "
+                        "segment and of each dovetail/containment with the identifier substituted), the frame, the segments afterwards, and that "
+                        "unique identifiers and the closed reference graph survive; the value of the divided counts is integer floor division by "
+                        "definition of the model (checked against the library by the correspondence)",
+                        "link distribution on the graph (which links each copy keeps) is proved on indices (distribute_*) and decided on graphs by the "
+                        "text-level oracle"],
     },
     "C16": {
         "LEAN": {"modules": ["GfaProofs.Bridge.Geometry", "GfaProofs.C16"], "support": ["GfaModel.Components", "GfaProofs.Lemmas.Closure"],
